@@ -121,6 +121,9 @@ def cases(tier):
         for Rg in R_GOALS:
             out.append({"kind": "monotone", "M": M, "M2": M2, "Rg": Rg, "_weight": 9})
             out.append({"kind": "accessor", "M": M, "M2": M2, "Rg": Rg, "_weight": 9})
+    for Rg in ((-1.0, 0.375) if q else (-1.0, 0.0, 0.375, -math.inf, 0.9)):
+        for share in ("R12", "R23"):
+            out.append({"kind": "five_multi", "Rg": Rg, "share": share, "_weight": 9})
     for (M, M2) in sens[1:3]:
         for Rg in (-1.0, -0.5, 0.0, 0.5):
             out.append({"kind": "matrix", "M": M, "M2": M2, "Rg": Rg, "_weight": 2})
@@ -214,6 +217,26 @@ def run(ctx, case):
         if on_target:
             ctx.claim(ctx.close(direct, a), "on_target_unchanged", (direct, a))
         return {"via": a12, "direct": direct}
+    if kind == "five_multi":
+        # several elements with their own five-segment diagram (parameter DataFrame): the accessor gives every element what
+        # the plain function gives with that element's parameters
+        Rg = case["Rg"]
+        prm = {1: (0.5, 0.25, 0.125, 0.0625, 0.0, 0.25, 0.5), 2: (0.5, 0.25, 0.125, 0.0625, 0.0, 0.25, 0.75)}
+        if case.get("share") == "R23":
+            prm = {1: (0.5, 0.25, 0.125, 0.0625, 0.0, 0.25, 0.75), 2: (0.5, 0.25, 0.125, 0.0625, 0.0, 0.5, 0.75)}
+        keys = ["M0", "M1", "M2", "M3", "M4", "R12", "R23"]
+        haigh = pd.DataFrame(list(prm.values()), columns=keys, index=pd.Index(list(prm), name="element_id"))
+        coll = pd.DataFrame({"from": _arr(ctx, [m - a]), "to": _arr(ctx, [m + a])}, index=pd.Index([0], name="cycle_number"))
+        res = coll.meanstress_transform.five_segment(haigh.copy(), Rg).amplitude
+        out = {}
+        for el, pr in prm.items():
+            exp = list(MS.five_segment_correction(_arr(ctx, [a]), _arr(ctx, [m]), *pr, Rg))[0]
+            got = list(res.xs(el, level="element_id"))
+            ctx.claim(len(got) == 1, "accessor_equals_function", (el, got))
+            ctx.claim(ctx.close(got[0], exp), "accessor_equals_function", (el, got, exp))
+            out["e%d" % el] = got[0]
+        ctx.signature((kind, Rg, case.get("share"), str(out["e2"].e.sexpr())[:60] if isinstance(out["e2"], SymReal) else 0))
+        return out
     if kind == "compose":
         M, M2, R1, R2 = case["M"], case["M2"], case["R1"], case["R2"]
         secs = goodman_sectors(M, M2)
